@@ -229,6 +229,7 @@ func checkC02(c *Ctx) {
 	c.ruleDistributeErrors("C02-R2")
 	c.ruleAckEncodesInCallback("C02-R9")
 	c.ruleDirectionKeys("C02-R10")
+	c.ruleHandOverHasNoDeadline("C02-R11")
 
 	// R3
 	ru3 := c.R.Rule("C02-R3", "the callback given to messageLog.Consume hands its own offset parameter to Writer.Schedule (directly or through a module function) on every path that returns a nil error", "E1 must-call on nil-returning paths + E3", 1)
